@@ -44,6 +44,11 @@ CLAIMED = {
   note="Trusted: gowp, go/ssa, solvers; regexp.Find*Index per documentation (nil or an even number of in-range offsets); bytes.Buffer writes are library calls whose arguments are specified; [[Get]] yields language values (trusted). One defect fixed (unknown flags accepted).",
   technique="contract-based deductive verification: safety VCs, at_call assertions on the rewriting calls, ghost call events for the lastIndex protocol, loop invariants for the split limit; go/ssa VCs discharged by z3/cvc5",
   ref="6 C10"),
+ "C11": dict(
+  text="Proof of the code around the JSON codec, which itself is Go's encoding/json (a library, not verified): JSON.parse hands the decoder the text of its argument with nothing stripped or added (same length as ToString of the argument) and maps decoded null/bool/string/number leaves to the corresponding primitive values; in JSON.stringify the property list built from an array replacer is packed - every slot of the final list is a name that was accepted and recorded (strings, numbers, String/Number objects, no duplicates) - and a numeric gap is clamped to 0..10. That parse accepts exactly the ES5 15.12.1 grammar, reviver order, toJSON/replacer-function order, wrapper unboxing, cycle detection and round-trip equality are not covered (grammar and serialisation live in encoding/json; the walkers call back into scripts).",
+  note="Trusted: gowp, go/ssa, solvers; encoding/json is an unmodelled library (only the arguments passed to it are specified); [[Get]] yields language values. One defect fixed (property list lost entries).",
+  technique="contract-based deductive verification: loop invariant relating the property list to the 'seen' set, at_call assertions with ghost call results; go/ssa VCs discharged by z3/cvc5",
+  ref="6 C11"),
  "C12": dict(
   text="Proof of the validity discipline and field conventions of Date: dateObject.Set makes the date invalid exactly for NaN, +-Infinity and |t| > 8.64e15 (TimeClip) and otherwise stores ToInteger(t) as an int64 Value and clears the invalid flag, for every double; epochToTime fails exactly outside the valid range; dateObjectOf throws for non-Date receivers; each of the 20 accessors returns NaN and each of the 9 formatters 'Invalid Date' for an invalid date; the shared setter prologue keeps an invalid date invalid, makes the receiver invalid when a supplied field is missing, NaN or infinite, and otherwise returns min(limit, argc) >= 1 fields; Date.UTC / the multi-argument constructor return NaN when any supplied field is NaN or infinite, pass ToInteger(year) (+1900 for 0..99), month+1 and day (default 1) to the calendar; months are shifted by one in both directions; the time value of a Go time is its UnixMilli. The calendar arithmetic itself (Go's time package), field extraction, ISO parsing/formatting and local time are not covered.",
   note="Trusted: gowp, go/ssa, solvers; time.Date/Unix/UnixMilli are library calls (only their call arguments are specified); FunctionCall.thisObject is a trusted contract; argument lists stable during a native call; arguments assumed primitive in newDateTime/BeforeSet (valueOf of objects is user code). Three defects fixed (TimeClip, setTime on invalid dates, two-digit years), one recorded.",
